@@ -36,9 +36,11 @@ import (
 	"testing"
 	"time"
 
+	red "github.com/redis/go-redis/v9"
 	"github.com/zeromicro/go-zero/core/breaker"
 	"github.com/zeromicro/go-zero/core/logx"
 	"github.com/zeromicro/go-zero/core/stat"
+	"github.com/zeromicro/go-zero/core/stores/redis"
 	"github.com/zeromicro/go-zero/rest/handler"
 
 	"verifharness/kit"
@@ -1392,6 +1394,143 @@ func runHandler(c *kit.Case, vc *kit.VClock) {
 	h.finish()
 }
 
+// ------------------------------------------------------------------ core/stores/redis breakerHook
+
+// redisHook is added with redis.WithHook, i.e. INSIDE go-zero's breakerHook: it runs iff
+// the breaker admitted the command, and it answers the command itself (nothing is dialled
+// on the command path; the address is an unused loopback address).
+type redisHook struct{ fn func() error }
+
+func (h redisHook) DialHook(next red.DialHook) red.DialHook { return next }
+func (h redisHook) ProcessHook(next red.ProcessHook) red.ProcessHook {
+	return func(ctx context.Context, cmd red.Cmder) error { return h.fn() }
+}
+func (h redisHook) ProcessPipelineHook(next red.ProcessPipelineHook) red.ProcessPipelineHook {
+	return func(ctx context.Context, cmds []red.Cmder) error { return h.fn() }
+}
+
+var redisSeq atomic.Int64
+
+func runRedis(c *kit.Case, vc *kit.VClock) {
+	r := c.R
+	vc.Set(kit.VClockStart + time.Duration(r.Int63n(int64(3*time.Second))))
+	h := &hist{c: c, vc: vc, kind: "redis-breakerhook"}
+	var runs int
+	var answer error
+	var lat time.Duration
+	hook := redisHook{fn: func() error {
+		runs++
+		if lat > 0 {
+			vc.Advance(lat)
+		}
+		return answer
+	}}
+	// one go-redis client (and one breaker) per address: use a fresh unused loopback address
+	// (process id in the second octet keeps shards apart; port 1 refuses connections at once)
+	n := redisSeq.Add(1)
+	addr := fmt.Sprintf("127.%d.%d.%d:1", 1+kit.GetEnv().Shard%250, 1+(n/250)%250, 1+n%250)
+	rds := redis.New(addr, redis.WithHook(hook))
+	h.m = newModel(vc.Now())
+	effect := r.Chance(0.3)
+	L := r.Range(20, 200)
+	pFail := kit.Choose(r, []float64{0.3, 0.6, 0.9, 1})
+	g := newGen(r)
+	if effect {
+		L, pFail = 1060, 1
+	}
+	boom := errors.New("ERR scripted redis failure")
+	rejTail := 0
+	for i := 0; i < L && !c.Violated(); i++ {
+		gap := g.gap()
+		if effect {
+			gap = 10 * time.Millisecond
+		}
+		vc.Advance(gap)
+		success := true
+		switch {
+		case r.Chance(pFail):
+			answer, success = boom, false
+		case r.Chance(0.3):
+			answer = red.Nil // acceptable for go-zero's redis client
+		default:
+			answer = nil
+		}
+		lat = 0
+		if !effect && r.Chance(0.1) {
+			lat = kit.Choose(r, []time.Duration{bucketDur, time.Second + 1})
+		}
+		runs = 0
+		t := vc.Now()
+		p := h.m.pre(t)
+		var err error
+		op := r.Intn(3)
+		opName := []string{"Get", "Set", "Pipelined"}[op]
+		switch op {
+		case 0:
+			_, err = rds.Get("k")
+		case 1:
+			err = rds.Set("k", "v")
+		default:
+			err = rds.Pipelined(func(pipe redis.Pipeliner) error {
+				pipe.Get(context.Background(), "a")
+				pipe.Incr(context.Background(), "b")
+				return nil
+			})
+		}
+		desc := fmt.Sprintf("+%v %s -> server answers %v lat=%v", gap, opName, answer, lat)
+		c.Obs("redis_commands", 1)
+		if p.legal {
+			h.legal++
+		}
+		switch {
+		case runs == 1:
+			h.log = append(h.log, fmt.Sprintf("%s -> executed, client got %v [A=%d N=%d]", desc, err, p.A, p.N))
+			if errors.Is(err, breaker.ErrServiceUnavailable) {
+				c.Viol("C01/redis/executed-and-unavailable", "command reached the server side and the client still got ErrServiceUnavailable", h.witness(""))
+			}
+			h.m.admitted(p)
+			if success {
+				h.m.mark(0, vc.Now())
+			} else {
+				h.m.mark(1, vc.Now())
+			}
+		case runs == 0:
+			h.log = append(h.log, fmt.Sprintf("%s -> not executed, client got %v [A=%d N=%d]", desc, err, p.A, p.N))
+			if !errors.Is(err, breaker.ErrServiceUnavailable) {
+				// not the breaker (client-side failure of some other kind): nothing to judge
+				c.Inconclusive(fmt.Sprintf("redis command neither executed nor rejected by the breaker: %v", err))
+				h.finish()
+				return
+			}
+			h.rej++
+			c.Obs("redis_rejected", 1)
+			if i >= 60 {
+				rejTail++
+			}
+			if !p.legal {
+				c.Viol("C01/illegal-reject/"+p.illegalKey(),
+					fmt.Sprintf("redis breakerHook rejected a command although the window holds accepted=%d, non-accepted=%d", p.A, p.N), h.witness("core/stores/redis breakerHook"))
+			}
+			if p.must {
+				c.Viol("C01/must-admit-rejected/sequential", "redis breakerHook rejected a must-admit command", h.witness("core/stores/redis breakerHook"))
+			}
+			h.m.mark(2, t)
+		default:
+			c.Viol("C01/redis/executed-more-than-once", fmt.Sprintf("one command ran the inner hook %d times", runs), h.witness(""))
+		}
+		h.sigH = append(h.sigH, op, success, int64(gap), runs)
+	}
+	if effect && !c.Violated() {
+		c.Obs("effectiveness_runs", 1)
+		if rejTail*100 < 1000*80 {
+			c.Viol("C01/effectiveness/redis-breakerhook", fmt.Sprintf("1000 consecutive failing commands at 100 per virtual second after a 60-command warm-up: only %d rejected", rejTail),
+				map[string]any{"rejected": rejTail, "statistical": true})
+		}
+	}
+	h.calls = int64(L)
+	h.finish()
+}
+
 // ------------------------------------------------------------------ test
 
 func TestVerifC01(t *testing.T) {
@@ -1448,6 +1587,9 @@ func TestVerifC01(t *testing.T) {
 
 	// (d) integration site: rest/handler.BreakerHandler
 	kit.Run(t, "C01", "handler", kit.N(120, 2000), func(c *kit.Case) { runHandler(c, vc) })
+
+	// (d) integration site: core/stores/redis breakerHook (commands answered by an inner go-redis hook)
+	kit.Run(t, "C01", "redis", kit.N(60, 1000), func(c *kit.Case) { runRedis(c, vc) })
 
 	kit.End()
 }
